@@ -214,6 +214,10 @@ fn replay(a: &Args) -> i32 {
             let check = vecworld::check::VecCheck { prop: rf.property.clone(), kf_retire: true };
             replay_with(&check, &rf, &path)
         }
+        "vector-tx-enumeration" => {
+            let rf: ReplayFile<vecworld::steps::Case> = serde_json::from_str(&text).unwrap();
+            replay_with(&vecworld::txenum::TxEnumCheck, &rf, &path)
+        }
         "observable" => {
             let rf: ReplayFile<obsworld::steps::Case> = serde_json::from_str(&text).unwrap();
             let check = obsworld::check::ObsCheck { prop: rf.property.clone() };
@@ -275,6 +279,16 @@ fn main() {
                     let parts: Vec<(&str, serde_json::Value)> = [("differential (same histories as the sync flavour)", e1), ("contention (tasks, held guards, cancellation)", e2)].into_iter().filter_map(|(n, e)| e.map(|e| (n, e))).collect();
                     if !parts.is_empty() && c1.max(c2) != 2 {
                         write_evidence(&a, "C16", &merge_evidence(parts));
+                    }
+                    c1.max(c2)
+                }
+                "C07" => {
+                    let h = half(&a);
+                    let (c1, e1) = run_check(&vecworld::check::VecCheck { prop: "C07".into(), kf_retire: a.kf_retire }, &h, "fault_enumeration", 1_000_000, 120);
+                    let (c2, e2) = if c1 == 0 { run_check(&vecworld::txenum::TxEnumCheck, &h, "fault_enumeration", 60_000, 120) } else { (0, None) };
+                    let parts: Vec<(&str, serde_json::Value)> = [("seeded histories with the abandonment point placed by the generator", e1), ("every abandonment point of each sampled transaction body, with twin runs", e2)].into_iter().filter_map(|(n, e)| e.map(|e| (n, e))).collect();
+                    if !parts.is_empty() && c1.max(c2) != 2 {
+                        write_evidence(&a, "C07", &merge_evidence(parts));
                     }
                     c1.max(c2)
                 }
